@@ -162,5 +162,7 @@ Separate Extraction
   Driver.compile
   EmitData.data_of_dfa
   Diag.render
+  Diag.error_messages
+  Diag.warning_messages
   (* add new roots above this line *)
   Prelude.pow2.
